@@ -286,6 +286,31 @@ fn judge_jac3(case: &Case, l: &mut Local) {
         });
         l.check("point-to-point Jacobian equals the finite-difference derivative", "", worst[2] <= tol, mk, || format!("p {:?} c {:?}: worst entry error {:e}", p, cpt, worst[2]));
     }
+    // a reference point a few microns from the test point: far above the coincidence guard of the
+    // point-to-point row (1e-8), so the row is still the derivative of the distance
+    if case.k % 9 == 0 {
+        for sep in [3e-6, 2e-5] {
+            l.eval();
+            let near = p + Vector3::new(1.0, -2.0, 2.0) / 3.0 * sep;
+            let jp = point_point_jacobian(&p, &near, &params);
+            let lever = 1.0 + (p - params.current_rc()).norm();
+            // the step keeps the induced displacement three orders below the separation
+            let mut worst = 0.0f64;
+            for i in 0..6 {
+                let h = if i < 3 { sep * 1e-3 } else { sep * 1e-3 / lever };
+                let dist_at = |dx: f64| {
+                    let mut q = params.clone();
+                    let mut x = *params.x();
+                    x[i] += dx;
+                    q.set(&x);
+                    (((q.transform() * t0i) * p) - near).norm()
+                };
+                worst = worst.max((jp[i] - (dist_at(h) - dist_at(-h)) / (2.0 * h)).abs() / (1.0 + jp[i].abs()));
+            }
+            l.bucket("point-to-point row for points microns apart");
+            l.check("point-to-point Jacobian equals the finite-difference derivative", "close pair", worst <= 2e-2, mk, || format!("p {:?}, reference {:e} away: analytic {:?}, worst entry error {:e}", p, sep, jp.as_slice(), worst));
+        }
+    }
 }
 
 fn judge_jac2(case: &Case, l: &mut Local) {
@@ -551,7 +576,7 @@ pub fn run(tier: Tier) -> i32 {
     let mut cx = Ctx::new("C08", tier, "exploration");
     cx.rule = "Euler alphabet {0, +-0.3, +-1.1, +-2.5, pi, +-pi/2, +-(pi/2 - 1e-9 / 1e-5 / 1e-4 / 1e-3)}: every triple for the rotation matrices, their derivatives and the Euler extraction; every triple x 3 translations (up to 1e3) x 3 rotation centres (up to 1e3 from the origin) for the parameter object , each followed by 3 parameter updates compared with the independent formula p -> rc_d + t + R(e)(p - rc); 2D: 12 angles x translations x centres; Jacobians: 5 poses x translations x centres x lattice test points x lattice surface points x 4 normals, every parameter index against central finite differences; ParamHandler: 2..4 bodies x every static index x with/without initial transforms. distinct = distinct cases".into();
     cx.bounds = json!({"euler_alphabet": euler_alphabet().len(), "translations": 3, "centres": 3, "fd_step": 1e-6});
-    cx.require(&["pitch at or near gimbal lock", "pitch away from gimbal lock", "rotation centre far from the origin", "rotation centre near the origin", "2D parameter object", "offset parallel to the normal", "offset not parallel to the normal", "2D Jacobian probe", "parameter handler layout", "assembled Jacobian at the identity pose", "assembled Jacobian at a large rotation", "pose set with a pitch beyond a quarter turn"]);
+    cx.require(&["pitch at or near gimbal lock", "pitch away from gimbal lock", "rotation centre far from the origin", "rotation centre near the origin", "2D parameter object", "offset parallel to the normal", "offset not parallel to the normal", "2D Jacobian probe", "parameter handler layout", "assembled Jacobian at the identity pose", "assembled Jacobian at a large rotation", "pose set with a pitch beyond a quarter turn", "point-to-point row for points microns apart"]);
     cx.assume("reproduction tolerance 1e-9*(1+|t|+|rc|); isometry<->parameter round trip judged at 1e-9*(1+|t|); Jacobian tolerance 1e-5*lever with central differences h=1e-6, residual kinks (|d| < 1e-3) skipped");
     let cs = cases(tier);
     let l = sweep(&cs, judge);
